@@ -185,9 +185,18 @@ def impl_oracle(c):
         k = x["k"]
         if x["res"] == "ok":
             if not x.get("sent"):
-                out.append(("success-without-reply",
-                            "call %d returned success although its request never reached the peer "
-                            "and no reply was sent for it" % k))
+                # the only thing that can have completed it is a reply the peer sent to some other call
+                others = {y.get("id"): y["k"] for y in c["callers"] if y["k"] != k and y.get("id") is not None}
+                src = [f for f in frames if f.get("whole") and f.get("id") in others]
+                if src:
+                    out.append(("foreign-reply",
+                                "call %d returned success although its request never reached the peer: it was "
+                                "completed by the reply the peer sent to call %d (id %s), a result that belongs "
+                                "to another caller" % (k, others[src[0]["id"]], src[0]["id"])))
+                else:
+                    out.append(("success-without-reply",
+                                "call %d returned success although its request never reached the peer "
+                                "and no reply was sent for it" % k))
                 continue
             mine = [f for f in frames if f.get("whole") and f["id"] == x.get("id") and f["typ"] == x["typ"]
                     and f["ec"] == 0 and (f.get("fields") or []) == (x.get("fields") or [])]
@@ -227,6 +236,7 @@ def run(ck):
     if ck.thorough and proofs_ok:
         ck.coqchk(["Verif.Props.C03"])
 
+    ck.log("built the proofs")
     binp = ck.build_harness("c03")
     cases = []
     replayed = rpc_common.replay_case(ck)
@@ -234,13 +244,17 @@ def run(ck):
         cases = rpc_common.run_script(ck, binp, [replayed])
         ck.log("replaying %s: %d case(s)" % (ck.replay, len(cases)))
     elif binp:
-        rc, out, err = vlib.sh2([binp, "-seed", str(ck.seed), "-n", str(n), "-stress", "1" if not ck.thorough else "10"],
-                                timeout=3000)
+        # (on a defective tree every hang costs observation bounds: a stream is cut short after 4 hangs and
+        #  no case is started after the wall-clock budget; what was observed until then is reported)
+        budget = 150 if not ck.thorough else 900
+        rc, out, err = vlib.sh2([binp, "-seed", str(ck.seed), "-n", str(n), "-stress", "1" if not ck.thorough else "10",
+                                 "-budget", str(budget)], timeout=budget + 240)
         if rc != 0:
             ck.broken.append({"what": "harness run failed", "detail": err[-1500:]})
         for line in out.splitlines():
             if line.startswith("{"):
                 cases.append(json.loads(line))
+    ck.log("harness run done: %d cases" % len(cases))
     if binp and replayed is None:
         # histories under the race detector (ownership of the pending table and of a fetched exchange;
         # cancelled callers whose reply arrives late; forced early replies): child mode, so that the
@@ -248,7 +262,8 @@ def run(ck):
         rb = ck.build_harness("c03", race=True)
         if rb:
             nr = 40 if not ck.thorough else 400
-            rc, out, err = vlib.sh2([rb, "-seed", str(ck.seed + 1), "-n", str(nr), "-child"], timeout=3000)
+            rc, out, err = vlib.sh2([rb, "-seed", str(ck.seed + 1), "-n", str(nr), "-child",
+                                     "-budget", "60" if not ck.thorough else "600"], timeout=900)
             races = err.count("WARNING: DATA RACE")
             ck.coverage["race_detector_runs"] = nr
             ck.coverage["data_races"] = races
@@ -256,8 +271,19 @@ def run(ck):
                 ck.violation("impl:data-race", "the race detector reports a data race in the transport",
                              {"race_report": err[err.find("WARNING: DATA RACE"):][:3000]})
 
+    ck.log("race-detector run done")
     kinds = {}
     shrunk = set()
+    skipped = [c for c in cases if c.get("skipped")]
+    cases = [c for c in cases if not c.get("skipped")]
+    if skipped:
+        by = {}
+        for c in skipped:
+            k = "%s: %s" % (c["stream"], {"hangs": "stream cut short after 4 hangs",
+                                          "budget": "wall-clock budget of the harness run used up"}.get(c["skipped"], c["skipped"]))
+            by[k] = by.get(k, 0) + 1
+        ck.coverage["cases_not_run"] = by
+        ck.log("cases not run: %s" % by)
     for c in cases:
         nframes = len(c.get("frames", []))
         trivial = len(c.get("callers", [])) <= 1 and nframes <= 1 and c["stream"] not in ("stress", "page")
@@ -268,7 +294,8 @@ def run(ck):
             kinds[f["kind"]] = kinds.get(f["kind"], 0) + 1
         for key, why in impl_oracle(c):
             small = c
-            if binp and replayed is None and key not in shrunk and len(shrunk) < 3:
+            if binp and replayed is None and key not in shrunk and len(shrunk) < 3 and key != "hang" \
+                    and not c.get("hang"):        # (a history that hangs costs bounds at every trial)
                 shrunk.add(key)
                 small = rpc_common.shrink(ck, binp, c, key, impl_oracle)
             ck.violation("impl:%s" % key, why,
@@ -282,6 +309,7 @@ def run(ck):
         ck.sample({"stream": c["stream"], "steps": c["steps"],
                    "callers": [(x["k"], x["kind"], x["res"]) for x in c["callers"]]})
 
+    ck.log("oracle and shrinking done")
     model_ok = all(built.get(x) for x in MODEL)
     ck.coverage["stress_calls"] = {k: sum((c.get("stress") or {}).get(k, 0) for c in cases if c["stream"] == "stress")
                                    for k in ("ok", "alreadyshutdown", "eof")}
